@@ -243,7 +243,11 @@ fn cosine_distance_scalar(a: &[f32], b: &[f32]) -> f32 {
         norm_b += b[i] * b[i];
     }
 
-    let denom = (norm_a.sqrt() * norm_b.sqrt()) + f32::EPSILON;
+    let denom = norm_a.sqrt() * norm_b.sqrt();
+    if denom == 0.0 {
+        // Zero-norm operand: cosine is undefined, keep the constant 1.0
+        return 1.0;
+    }
     1.0 - (dot / denom)
 }
 
@@ -353,7 +357,11 @@ unsafe fn cosine_distance_avx2(a: &[f32], b: &[f32]) -> f32 {
         i += 1;
     }
 
-    let denom = (norm_a.sqrt() * norm_b.sqrt()) + f32::EPSILON;
+    let denom = norm_a.sqrt() * norm_b.sqrt();
+    if denom == 0.0 {
+        // Zero-norm operand: cosine is undefined, keep the constant 1.0
+        return 1.0;
+    }
     1.0 - (dot / denom)
 }
 
@@ -504,7 +512,11 @@ unsafe fn cosine_distance_sse(a: &[f32], b: &[f32]) -> f32 {
         i += 1;
     }
 
-    let denom = (norm_a.sqrt() * norm_b.sqrt()) + f32::EPSILON;
+    let denom = norm_a.sqrt() * norm_b.sqrt();
+    if denom == 0.0 {
+        // Zero-norm operand: cosine is undefined, keep the constant 1.0
+        return 1.0;
+    }
     1.0 - (dot / denom)
 }
 
@@ -645,7 +657,11 @@ unsafe fn cosine_distance_neon(a: &[f32], b: &[f32]) -> f32 {
         i += 1;
     }
 
-    let denom = (norm_a.sqrt() * norm_b.sqrt()) + f32::EPSILON;
+    let denom = norm_a.sqrt() * norm_b.sqrt();
+    if denom == 0.0 {
+        // Zero-norm operand: cosine is undefined, keep the constant 1.0
+        return 1.0;
+    }
     1.0 - (dot / denom)
 }
 
